@@ -40,6 +40,11 @@ theorem find_upd (s : State) (u v : Nat) (f : Module → Module) (hf : ∀ m, (f
     (s.upd u f).find v = (s.find v).map (fun m => if m.uid == u then f m else m) := by
   unfold State.upd State.find; exact find_upd_gen _ _ _ _ hf
 
+theorem find_upd_self (s : State) (u : Nat) (f : Module → Module) (hf : ∀ m, (f m).uid = m.uid) {m : Module}
+    (h : s.find u = some m) : (s.upd u f).find u = some (f m) := by
+  have hu : m.uid = u := by unfold State.find at h; have := List.find?_some h; simpa using this
+  rw [find_upd s u u f hf, h]; simp [hu]
+
 theorem find_uid {s : State} {u : Nat} {m : Module} (h : s.find u = some m) : m.uid = u := by
   unfold State.find at h; have := List.find?_some h; simpa using this
 
@@ -103,9 +108,10 @@ structure Pres (s s' : State) : Prop where
           ∃ m, s.find u = some m ∧ m'.ident = m.ident ∧ (m'.connected = true → m.connected = true)
   idx : ∀ t u, u ∈ idxGet s'.idx t → u ∈ idxGet s.idx t
   loggers : ∀ u, u ∈ s'.loggers → u ∈ s.loggers
+  out : ∃ ext, s'.out = s.out ++ ext            -- the event log only grows
 
 theorem Pres.refl (s : State) : Pres s s :=
-  ⟨rfl, rfl, fun _ _ => rfl, fun _ h => h, fun _ m h => ⟨m, h, rfl, id⟩, fun _ _ h => h, fun _ h => h⟩
+  ⟨rfl, rfl, fun _ _ => rfl, fun _ h => h, fun _ m h => ⟨m, h, rfl, id⟩, fun _ _ h => h, fun _ h => h, ⟨[], by simp⟩⟩
 
 theorem Pres.trans {a b c : State} (h1 : Pres a b) (h2 : Pres b c) : Pres a c :=
   ⟨h2.wlist.trans h1.wlist, h2.fail.trans h1.fail,
@@ -115,21 +121,22 @@ theorem Pres.trans {a b c : State} (h1 : Pres a b) (h2 : Pres b c) : Pres a c :=
      obtain ⟨m', hm', hi', hc'⟩ := h2.sub u m'' h
      obtain ⟨m, hm, hi, hc⟩ := h1.sub u m' hm'
      exact ⟨m, hm, hi'.trans hi, fun x => hc (hc' x)⟩,
-   fun t u h => h1.idx t u (h2.idx t u h), fun u h => h1.loggers u (h2.loggers u h)⟩
+   fun t u h => h1.idx t u (h2.idx t u h), fun u h => h1.loggers u (h2.loggers u h),
+   by obtain ⟨e1, h1'⟩ := h1.out; obtain ⟨e2, h2'⟩ := h2.out; exact ⟨e1 ++ e2, by rw [h2', h1', List.append_assoc]⟩⟩
 
 theorem pres_emit (s : State) (e : Ev) : Pres s (s.emit e) :=
-  ⟨rfl, rfl, fun _ _ => rfl, fun _ h => h, fun _ m h => ⟨m, h, rfl, id⟩, fun _ _ h => h, fun _ h => h⟩
+  ⟨rfl, rfl, fun _ _ => rfl, fun _ h => h, fun _ m h => ⟨m, h, rfl, id⟩, fun _ _ h => h, fun _ h => h, ⟨[e], rfl⟩⟩
 
 theorem pres_crash (s : State) (w : String) : Pres s (s.crash w) := by
   unfold State.crash; split
   · exact Pres.refl s
-  · exact ⟨rfl, rfl, fun _ _ => rfl, fun _ h => h, fun _ m h => ⟨m, h, rfl, id⟩, fun _ _ h => h, fun _ h => h⟩
+  · exact ⟨rfl, rfl, fun _ _ => rfl, fun _ h => h, fun _ m h => ⟨m, h, rfl, id⟩, fun _ _ h => h, fun _ h => h, ⟨[], by simp⟩⟩
 
 theorem pres_upd (s : State) (u : Nat) (f : Module → Module) (hu : ∀ m, (f m).uid = m.uid)
     (hi : ∀ m, (f m).ident = m.ident) (hcn : ∀ m, (f m).connected = true → m.connected = true)
     (hk : ∀ v m, failOf s v = none → s.find v = some m → m.uid = u → (f m).core = m.core) :
     Pres s (s.upd u f) := by
-  refine ⟨rfl, rfl, fun v hv => ?_, fun v hv => ?_, fun v m' h => ?_, fun _ _ h => h, fun _ h => h⟩
+  refine ⟨rfl, rfl, fun v hv => ?_, fun v hv => ?_, fun v m' h => ?_, fun _ _ h => h, fun _ h => h, ⟨[], by simp [State.upd]⟩⟩
   · rw [find_upd s u v f hu]
     cases h : s.find v with
     | none => rfl
@@ -167,11 +174,21 @@ def dataSends (B : Body → Bool) (evs : List Ev) : List (Nat × Frame) :=
 
 /-- a body predicate that is false on everything the manager sends on its own behalf inside a delivery
     (CLIENT_CLOSED, RTMA_LOG*, FAILED_MESSAGE): e.g. "is the copy of input frame k", "is an ACKNOWLEDGE" -/
-def Tag (B : Body → Bool) : Prop :=
-  (∀ u p m l q n, B (.closed u p m l q n) = false) ∧ (∀ l, B (.log l) = false) ∧ (∀ d t x y, B (.failed d t x y) = false)
+def Tag (cfg : Cfg) (B : Body → Bool) : Prop :=
+  (∀ u p m l q n, B (.closed u p m l q n) = false) ∧ (∀ l, B (.log l) = false) ∧
+  (∀ d t x y, inGuard cfg t = false → B (.failed d t x y) = false)
 
-theorem tag_data (k : Nat) : Tag (fun b => b == .data k) := ⟨by intros; rfl, by intros; rfl, by intros; rfl⟩
-theorem tag_ack : Tag (fun b => b == .ack) := ⟨by intros; rfl, by intros; rfl, by intros; rfl⟩
+theorem tag_data (cfg : Cfg) (k : Nat) : Tag cfg (fun b => b == .data k) :=
+  ⟨by intros; rfl, by intros; rfl, by intros; rfl⟩
+theorem tag_ack (cfg : Cfg) : Tag cfg (fun b => b == .ack) := ⟨by intros; rfl, by intros; rfl, by intros; rfl⟩
+
+/-- "is a FAILED_MESSAGE that reports the failed delivery of a FAILED_MESSAGE or RTMA_LOG message" -/
+def guardNotice (cfg : Cfg) : Body → Bool
+  | .failed _ t _ _ => inGuard cfg t
+  | _ => false
+
+theorem tag_guardNotice (cfg : Cfg) : Tag cfg (guardNotice cfg) :=
+  ⟨by intros; rfl, by intros; rfl, by intro d t x y h; simpa [guardNotice] using h⟩
 
 theorem dataSends_append (B : Body → Bool) (a b : List Ev) : dataSends B (a ++ b) = dataSends B a ++ dataSends B b := by
   simp [dataSends]
@@ -256,21 +273,21 @@ theorem sendRaw_false (s : State) (u : Nat) (f : Frame) (h : (sendRaw s u f).2 =
 
 /-! ## nested operations preserve `Pres` / `Quiet` -/
 
-theorem logAt_ok {B} (hB : Tag B) (cfg : Cfg) {fwd : Fwd} (hf : FwdOK B fwd) (lvl : Nat) (s : State) :
+theorem logAt_ok (cfg : Cfg) {B} (hB : Tag cfg B) {fwd : Fwd} (hf : FwdOK B fwd) (lvl : Nat) (s : State) :
     Pres s (logAt cfg fwd lvl s) ∧ Quiet B s (logAt cfg fwd lvl s) := by
   unfold logAt; split
   · exact hf s _ (hB.2.1 lvl)
   · exact ⟨Pres.refl s, Quiet.refl B s⟩
 
-theorem failedMsg_ok {B} (hB : Tag B) (cfg : Cfg) {fwd : Fwd} (hf : FwdOK B fwd) (s : State) (d : Int) (f : Frame) :
+theorem failedMsg_ok (cfg : Cfg) {B} (hB : Tag cfg B) {fwd : Fwd} (hf : FwdOK B fwd) (s : State) (d : Int) (f : Frame) :
     Pres s (failedMsg cfg fwd s d f) ∧ Quiet B s (failedMsg cfg fwd s d f) := by
   unfold failedMsg; split
   · exact ⟨Pres.refl s, Quiet.refl B s⟩
-  · exact hf s _ (hB.2.2 _ _ _ _)
+  · rename_i hg; exact hf s _ (hB.2.2 _ _ _ _ (by simpa using hg))
 
 theorem pres_dropMod (s : State) (u : Nat) (hf : failOf s u ≠ none) :
     Pres s { s with mods := s.mods.filter (·.uid != u) } := by
-  refine ⟨rfl, rfl, fun v hv => ?_, fun v hv => ?_, fun v m' h => ?_, fun _ _ h => h, fun _ h => h⟩
+  refine ⟨rfl, rfl, fun v hv => ?_, fun v hv => ?_, fun v m' h => ?_, fun _ _ h => h, fun _ h => h, ⟨[], by simp⟩⟩
   · have hne : v ≠ u := by intro h; subst h; exact hf hv
     show Option.map Module.core ((s.mods.filter (·.uid != u)).find? (·.uid == v)) = _
     rw [find_filter_ne _ _ _ hne]; rfl
@@ -287,38 +304,63 @@ theorem pres_dropMod (s : State) (u : Nat) (hf : failOf s u ≠ none) :
       rw [find_filter_ne _ _ _ hne] at h'
       exact ⟨m', h', rfl, id⟩
 
-theorem removeModule_ok {B} (hB : Tag B) (cfg : Cfg) {fwd : Fwd} (hf : FwdOK B fwd) (s : State) (u : Nat)
+theorem removePrep_idx (s : State) (u : Nat) (m : Module) :
+    (removePrep s u m).idx = m.subs.foldl (fun i t => idxDiscard i t u) s.idx := by
+  unfold removePrep; dsimp only; split <;> rfl
+
+theorem removePrep_loggers (s : State) (u : Nat) (m : Module) :
+    (removePrep s u m).loggers = s.loggers.filter (· != u) := by
+  unfold removePrep; dsimp only; split <;> rfl
+
+theorem removePrep_ok (B : Body → Bool) (s : State) (u : Nat) (m : Module) (hfail : failOf s u ≠ none) :
+    Pres s (removePrep s u m) ∧ Quiet B s (removePrep s u m) := by
+  unfold removePrep
+  dsimp only
+  generalize hs1 : ({ s with idx := m.subs.foldl (fun i t => idxDiscard i t u) s.idx,
+                             loggers := s.loggers.filter (· != u) } : State) = s1
+  have p1 : Pres s s1 := by
+    subst hs1
+    exact ⟨rfl, rfl, fun _ _ => rfl, fun _ h => h, fun _ m h => ⟨m, h, rfl, id⟩,
+           fun t v h => idxGet_discards m.subs s.idx t u v h, fun v h => (List.mem_filter.mp h).1, ⟨[], by simp⟩⟩
+  have q1 : Quiet B s s1 := by subst hs1; rfl
+  generalize hs2 : (if m.closed then s1 else s1.emit (.close u)) = s2
+  have p2 : Pres s1 s2 := by subst hs2; split; exact Pres.refl _; exact pres_emit _ _
+  have q2 : Quiet B s1 s2 := by
+    subst hs2; split; exact Quiet.refl B _; simp [Quiet, dataSends]
+  have hf2 : failOf s2 u ≠ none := by rw [failOf_congr (p1.trans p2).fail]; exact hfail
+  have p3 : Pres s2 (s2.upd u (fun m => { m with closed := true, connected := false })) :=
+    pres_upd_failing s2 u _ (fun _ => rfl) (fun _ => rfl) (fun _ h => by simp at h) hf2
+  exact ⟨(p1.trans p2).trans p3, (q1.trans q2).trans rfl⟩
+
+theorem removeModule_ok (cfg : Cfg) {B} (hB : Tag cfg B) {fwd : Fwd} (hf : FwdOK B fwd) (s : State) (u : Nat)
     (hfail : failOf s u ≠ none) :
     Pres s (removeModule cfg fwd s u) ∧ Quiet B s (removeModule cfg fwd s u) := by
   unfold removeModule
   split
-  · exact ⟨pres_crash _ _, by simp [Quiet]⟩
+  · exact ⟨Pres.refl s, Quiet.refl B s⟩
   · rename_i m hm
     dsimp only
-    generalize hs1 : ({ s with idx := m.subs.foldl (fun i t => idxDiscard i t u) s.idx,
-                               loggers := s.loggers.filter (· != u) } : State) = s1
-    have p1 : Pres s s1 := by
-      subst hs1
-      exact ⟨rfl, rfl, fun _ _ => rfl, fun _ h => h, fun _ m h => ⟨m, h, rfl, id⟩,
-             fun t v h => idxGet_discards m.subs s.idx t u v h, fun v h => (List.mem_filter.mp h).1⟩
-    have q1 : Quiet B s s1 := by subst hs1; rfl
-    generalize hs2 : (if m.closed then s1 else s1.emit (.close u)) = s2
-    have p2 : Pres s1 s2 := by subst hs2; split; exact Pres.refl _; exact pres_emit _ _
-    have q2 : Quiet B s1 s2 := by
-      subst hs2; split; exact Quiet.refl B _; simp [Quiet, dataSends]
-    have hf2 : failOf s2 u ≠ none := by rw [failOf_congr (p1.trans p2).fail]; exact hfail
-    generalize hs3 : s2.upd u (fun m => { m with closed := true, connected := false }) = s3
-    have p3 : Pres s2 s3 := hs3 ▸ pres_upd_failing s2 u _ (fun _ => rfl) (fun _ => rfl) (fun _ h => by simp at h) hf2
-    have q3 : Quiet B s2 s3 := by subst hs3; rfl
-    have h4 := hf s3 (closedFrame cfg { m with connected := false }) (by simp [closedFrame, mgrFrame, hB.1])
-    generalize hs4 : fwd s3 (closedFrame cfg { m with connected := false }) = s4 at h4
-    have hf4 : failOf s4 u ≠ none := by
-      rw [failOf_congr (((p1.trans p2).trans p3).trans h4.1).fail]; exact hfail
-    exact ⟨(((p1.trans p2).trans p3).trans h4.1).trans (pres_dropMod s4 u hf4),
-           (((q1.trans q2).trans q3).trans h4.2).trans rfl⟩
+    have h3 := removePrep_ok B s u m hfail
+    have h4 := hf (removePrep s u m) (closedFrame cfg { m with connected := false }) (by simp [closedFrame, mgrFrame, hB.1])
+    have hf4 : failOf (fwd (removePrep s u m) (closedFrame cfg { m with connected := false })) u ≠ none := by
+      rw [failOf_congr (h3.1.trans h4.1).fail]; exact hfail
+    exact ⟨(h3.1.trans h4.1).trans (pres_dropMod _ u hf4), (h3.2.trans h4.2).trans rfl⟩
+
+/-- removing any module (failing or not) writes no `B`-frame -/
+theorem removeModule_quiet (cfg : Cfg) {B} (hB : Tag cfg B) {fwd : Fwd} (hf : FwdOK B fwd) (s : State) (u : Nat) :
+    Quiet B s (removeModule cfg fwd s u) := by
+  unfold removeModule
+  split
+  · exact Quiet.refl B s
+  · rename_i m hm
+    dsimp only
+    have h4 := (hf (removePrep s u m) (closedFrame cfg { m with connected := false }) (by simp [closedFrame, mgrFrame, hB.1])).2
+    have h3 : Quiet B s (removePrep s u m) := by
+      unfold removePrep Quiet; dsimp only; split <;> simp [dataSends]
+    exact (h3.trans h4).trans rfl
 
 /-- `trySend`: `Pres`, and exactly one `B`-frame iff the recipient can take it -/
-theorem trySend_ok {B} (hB : Tag B) (cfg : Cfg) {fwd : Fwd} (hf : FwdOK B fwd) (s : State) (u : Nat) (f : Frame) :
+theorem trySend_ok (cfg : Cfg) {B} (hB : Tag cfg B) {fwd : Fwd} (hf : FwdOK B fwd) (s : State) (u : Nat) (f : Frame) :
     Pres s (trySend cfg fwd s u f) ∧
     dataSends B (trySend cfg fwd s u f).out =
       dataSends B s.out ++ (if canTake s u = true ∧ B f.body = true then [(u, f)] else []) := by
@@ -341,9 +383,9 @@ theorem trySend_ok {B} (hB : Tag B) (cfg : Cfg) {fwd : Fwd} (hf : FwdOK B fwd) (
       have hfail : failOf s u ≠ none := by
         apply sendRaw_false s u f (by rw [hsr]) (by rw [hsr]; simpa using hcr)
       have hf1 : failOf s1 u ≠ none := by rw [failOf_congr hp.fail]; exact hfail
-      have r1 := removeModule_ok hB cfg hf s1 u hf1
-      have r2 := logAt_ok hB cfg hf 40 (removeModule cfg fwd s1 u)
-      have r3 := failedMsg_ok hB cfg hf (logAt cfg fwd 40 (removeModule cfg fwd s1 u))
+      have r1 := removeModule_ok cfg hB hf s1 u hf1
+      have r2 := logAt_ok cfg hB hf 40 (removeModule cfg fwd s1 u)
+      have r3 := failedMsg_ok cfg hB hf (logAt cfg fwd 40 (removeModule cfg fwd s1 u))
                   (match s.find u with | some m => m.modId | none => 0) f
       exact ⟨((hp.trans r1.1).trans r2.1).trans r3.1, Eq.trans r3.2 (Eq.trans r2.2 (Eq.trans r1.2 hd))⟩
 
@@ -373,7 +415,7 @@ theorem elig_pres {s s' : State} (h : Pres s s') (f : Frame) (v : Nat) : elig f 
     obtain ⟨hc, hm, hl, _⟩ := core_fields hk
     simp [hc, hm, hl]
 
-theorem deliverOne_ok {B} (hB : Tag B) (cfg : Cfg) {fwd : Fwd} (hf : FwdOK B fwd) (f : Frame) (s : State) (u : Nat) :
+theorem deliverOne_ok (cfg : Cfg) {B} (hB : Tag cfg B) {fwd : Fwd} (hf : FwdOK B fwd) (f : Frame) (s : State) (u : Nat) :
     Pres s (deliverOne cfg fwd f s u) ∧ dataSends B (deliverOne cfg fwd f s u).out =
       dataSends B s.out ++ (if B f.body = true ∧ elig f s u = true then [(u, f)] else []) := by
   unfold deliverOne elig
@@ -381,7 +423,7 @@ theorem deliverOne_ok {B} (hB : Tag B) (cfg : Cfg) {fwd : Fwd} (hf : FwdOK B fwd
   | none => exact ⟨Pres.refl s, by simp⟩
   | some m =>
     simp only
-    have ht := trySend_ok hB cfg hf s u f
+    have ht := trySend_ok cfg hB hf s u f
     by_cases hw : u ∈ s.wlist
     · simp only [hw, if_true]
       by_cases hd : (f.dest == 0 || m.modId == f.dest || m.isLogger) = true
@@ -402,11 +444,11 @@ theorem deliverOne_ok {B} (hB : Tag B) (cfg : Cfg) {fwd : Fwd} (hf : FwdOK B fwd
         simp only [hl', Bool.false_eq_true, if_false]
         have hb : Pres s (s.upd u fun m => { m with drops := m.drops + 1 }) :=
           pres_upd_core s u _ (fun _ => rfl) (fun _ => rfl) (fun _ h => h) (fun _ => rfl)
-        have hm := failedMsg_ok hB cfg hf (s.upd u fun m => { m with drops := m.drops + 1 }) m.modId f
+        have hm := failedMsg_ok cfg hB hf (s.upd u fun m => { m with drops := m.drops + 1 }) m.modId f
         refine ⟨hb.trans hm.1, ?_⟩
         rw [hm.2]; simp
 
-theorem deliver_ok {B} (hB : Tag B) (cfg : Cfg) {fwd : Fwd} (hf : FwdOK B fwd) (f : Frame) :
+theorem deliver_ok (cfg : Cfg) {B} (hB : Tag cfg B) {fwd : Fwd} (hf : FwdOK B fwd) (f : Frame) :
     ∀ (rs : List Nat) (s : State),
     Pres s (deliver cfg fwd f rs s) ∧
     dataSends B (deliver cfg fwd f rs s).out =
@@ -414,8 +456,8 @@ theorem deliver_ok {B} (hB : Tag B) (cfg : Cfg) {fwd : Fwd} (hf : FwdOK B fwd) (
   | [], s => ⟨Pres.refl s, by simp [deliver]⟩
   | u :: rest, s => by
     unfold deliver
-    obtain ⟨hp, hd⟩ := deliverOne_ok hB cfg hf f s u
-    have ih := deliver_ok hB cfg hf f rest (deliverOne cfg fwd f s u)
+    obtain ⟨hp, hd⟩ := deliverOne_ok cfg hB hf f s u
+    have ih := deliver_ok cfg hB hf f rest (deliverOne cfg fwd f s u)
     refine ⟨hp.trans ih.1, ?_⟩
     rw [ih.2, hd, List.filter_cons]
     have he : rest.filter (elig f (deliverOne cfg fwd f s u)) = rest.filter (elig f s) := by
@@ -426,16 +468,16 @@ theorem deliver_ok {B} (hB : Tag B) (cfg : Cfg) {fwd : Fwd} (hf : FwdOK B fwd) (
 theorem countMsg_pres (cfg : Cfg) (s : State) (t : Int) : Pres s (countMsg cfg s t) := by
   unfold countMsg; split
   · exact Pres.refl s
-  · exact ⟨rfl, rfl, fun _ _ => rfl, fun _ h => h, fun _ m h => ⟨m, h, rfl, id⟩, fun _ _ h => h, fun _ h => h⟩
+  · exact ⟨rfl, rfl, fun _ _ => rfl, fun _ h => h, fun _ m h => ⟨m, h, rfl, id⟩, fun _ _ h => h, fun _ h => h, ⟨[], by simp⟩⟩
 
 theorem countMsg_out (cfg : Cfg) (s : State) (t : Int) : (countMsg cfg s t).out = s.out := by
   unfold countMsg; split <;> rfl
 
 /-- `forward` with any fuel meets the nested-forward contract -/
-theorem forward_ok {B} (hB : Tag B) (cfg : Cfg) : ∀ fuel, FwdOK B (forward cfg fuel)
+theorem forward_ok (cfg : Cfg) {B} (hB : Tag cfg B) : ∀ fuel, FwdOK B (forward cfg fuel)
   | 0 => fun s g _ => ⟨pres_crash _ _, by simp [forward, Quiet]⟩
   | fuel + 1 => fun s g hg => by
-    have ih := forward_ok hB cfg fuel
+    have ih := forward_ok cfg hB fuel
     unfold forward
     split
     · exact ⟨Pres.refl s, Quiet.refl B s⟩
@@ -443,16 +485,16 @@ theorem forward_ok {B} (hB : Tag B) (cfg : Cfg) : ∀ fuel, FwdOK B (forward cfg
       have qc : Quiet B s (countMsg cfg s g.mtype) := by unfold Quiet; rw [countMsg_out]
       dsimp only
       split
-      · have := logAt_ok hB cfg ih 40 (countMsg cfg s g.mtype)
+      · have := logAt_ok cfg hB ih 40 (countMsg cfg s g.mtype)
         exact ⟨pc.trans this.1, qc.trans this.2⟩
       · split
-        · have := logAt_ok hB cfg ih 40 (countMsg cfg s g.mtype)
+        · have := logAt_ok cfg hB ih 40 (countMsg cfg s g.mtype)
           exact ⟨pc.trans this.1, qc.trans this.2⟩
-        · have := deliver_ok hB cfg ih g (recipients cfg (countMsg cfg s g.mtype) g.mtype) (countMsg cfg s g.mtype)
+        · have := deliver_ok cfg hB ih g (recipients cfg (countMsg cfg s g.mtype) g.mtype) (countMsg cfg s g.mtype)
           refine ⟨pc.trans this.1, ?_⟩
           unfold Quiet; rw [this.2, qc]; simp [hg]
 
-theorem fwdTop_ok {B} (hB : Tag B) (cfg : Cfg) : FwdOK B (fwdTop cfg) :=
-  fun s g hg => forward_ok hB cfg (fuelOf cfg s) s g hg
+theorem fwdTop_ok (cfg : Cfg) {B} (hB : Tag cfg B) : FwdOK B (fwdTop cfg) :=
+  fun s g hg => forward_ok cfg hB (fuelOf cfg s) s g hg
 
 end Pyrtma.Mgr
